@@ -52,6 +52,7 @@ func families(tier string) []family {
 		{"snappy", "snappy", 1_500, 25_000, 16, 2, 40, func(ks *kase) { caseSnappy(ks, snappyMax) }},
 		{"stream", "stream", 40_000, 1_200_000, 8, 2, 40, caseStream},
 		{"utils", "utils", 40_000, 1_200_000, 4, 1, 40, caseUtils},
+		{"reuse", "reuse", 42_000, 1_400_000, 8, 2, 40, caseReuse},
 		{"edge", "edge", 14, 140, 1, 1, 2, caseEdge},
 	}
 }
@@ -126,7 +127,9 @@ func childMain(args []string) int {
 					logMu.Lock()
 					logCase(fmt.Sprintf("conc %d goroutine %d\n", idx, g))
 					logMu.Unlock()
-					switch idx % 5 {
+					switch idx % 6 {
+					case 5:
+						runOne("reuseconc", master, idx, caseReusePooled)
 					case 0:
 						runOne("tsdconc-stream", master, idx, strm.run)
 					case 1:
@@ -351,7 +354,12 @@ func parentMain() {
 		"tsd_streams", "xor_streams", "xorref_new_window_values", "xor_encoder_reused", "delta_sequences", "delta_encoder_reused", "delta_decoder_reused",
 		"fixedoffset_tables", "fixedoffset_width_1", "fixedoffset_width_2", "fixedoffset_width_3", "fixedoffset_width_4",
 		"fixedoffset_decoder_from_pool", "fixedoffset_blocks_sliced", "bitmaps", "bit_streams", "snappy_chunks",
-		"snappy_writer_reader_reused", "stream_sequences", "util_cases", "edge_blocks_ending_at_slot_65535",
+		"snappy_writer_reader_reused", "stream_sequences",
+		"reuse_fixedoffset_rejected_input_right_after_valid", "reuse_delta_rejected_input_right_after_valid",
+		"reuse_tsd_rejected_input_right_after_valid", "reuse_bitreader_rejected_input_right_after_valid",
+		"reuse_xor_rejected_input_right_after_valid", "reuse_snappy_rejected_input_right_after_valid",
+		"reuse_stream_rejected_input_right_after_valid", "reuse_fixedoffset_through_pool", "reuse_tsd_through_pool",
+		"reuse_fixedoffset_valid_right_after_invalid", "reuse_snappy_valid_right_after_invalid", "util_cases", "edge_blocks_ending_at_slot_65535",
 	}
 	if raceBin != "" {
 		need = append(need, "concurrent_histories_under_race", "pool_encoder_reuse_observed_under_race")
